@@ -147,6 +147,41 @@ fn fam_many_blocks(ctx: &CaseCtx, cov: &mut Cov) -> CaseOut {
     out
 }
 
+/// Block counts around the widths a counter or a size guard could have
+/// (2^12, 2^14 = 3-byte record count, 2^16, 2^17): tiny blocks drawn from a
+/// pool (incl. empty ones), every header shape.
+fn fam_huge_counts(ctx: &CaseCtx, cov: &mut Cov) -> CaseOut {
+    let mut out = CaseOut::default();
+    let mut rng = ctx.rng();
+    const NS: [usize; 8] = [65_537, 4_097, 16_384, 65_536, 131_073, 16_383, 4_096, 100_000];
+    let nb = NS[(ctx.index % NS.len() as u64) as usize];
+    let check = *rng.pick(&[0u8, 1, 4]);
+    let mut pool = Vec::new();
+    for _ in 0..24 {
+        let (data, plain, _) = gen_payload(&mut rng, true);
+        if plain.len() <= 64 {
+            pool.push((data, plain));
+        }
+    }
+    if pool.is_empty() {
+        pool.push((vec![0u8], vec![]));
+    }
+    let mut blocks = Vec::with_capacity(nb);
+    for _ in 0..nb {
+        let (data, plain) = pool[rng.usize_below(pool.len())].clone();
+        let bo = BlockOpts { with_packed: rng.chance(1, 2), with_unpacked: rng.chance(1, 2), extra_header_words: 0, dict_prop: 0 };
+        blocks.push(BlockSpec::new(data, plain, check, &bo));
+    }
+    let spec = XzSpec::new(check, blocks);
+    let (file, _) = spec.serialize();
+    cov_spec(cov, &spec, file.len());
+    cov.max("huge_counts.blocks_in_one_stream", nb as u64);
+    let desc = format!("check {} blocks {}", check, nb);
+    check_file("huge_counts", &file, &spec.plain(), &desc, ReaderKind::Slice, &mut out, cov, ctx, true);
+    out.sample = Some(J::obj().set("file", J::s(desc)).set("file_len", J::i(file.len())));
+    out
+}
+
 /// block sizes that need 3- and 4-byte (thorough: 5-byte) integers
 fn fam_big(ctx: &CaseCtx, cov: &mut Cov) -> CaseOut {
     let mut out = CaseOut::default();
@@ -347,6 +382,7 @@ pub fn monitor(tier: Tier) -> Monitor {
             Family { name: "random", count: tier.pick(20_000, 600_000), priority: false, enumerated: false, run: fam_random },
             Family { name: "readers", count: tier.pick(300, 10_000), priority: false, enumerated: false, run: fam_readers },
             Family { name: "many_blocks", count: tier.pick(60, 1500), priority: false, enumerated: false, run: fam_many_blocks },
+            Family { name: "huge_counts", count: tier.pick(2, 24), priority: false, enumerated: false, run: fam_huge_counts },
             Family { name: "liblzma", count: tier.pick(300, 6000), priority: false, enumerated: false, run: fam_liblzma },
         ],
         label,
